@@ -87,3 +87,31 @@ structure ProgItem where
   deriving DecidableEq, Repr, Inhabited
 
 end SpsdkVerif
+
+namespace SpsdkVerif
+
+/-- shape of the quick-info fingerprint function (loop over the configured data folders), read from the AST -/
+structure QuickHashShape where
+  /-- what happens for a folder that is not configured (`None`): "continue" | "break" | "none" (no test at all) -/
+  noneAction : String
+  /-- any other `break` / `continue` / `return` inside the loop -/
+  otherExit : Bool
+  hashesDefaults : Bool
+  hashesDeviceNames : Bool
+  hashesDeviceFiles : Bool
+  /-- `os.stat` fields that reach the hash -/
+  stampFields : List String
+  /-- the list of folders handed over at the call site -/
+  callArgs : List String
+  deriving DecidableEq, Repr, Inhabited
+
+structure ConfigHashShape where
+  /-- parameters hashed as strings -/
+  hashedParams : List String
+  /-- every cached config file is stamped -/
+  hashesCachedFiles : Bool
+  stampFields : List String
+  earlyExit : Bool
+  deriving DecidableEq, Repr, Inhabited
+
+end SpsdkVerif
